@@ -92,7 +92,7 @@ func (a *Abstract) DefaultBody(t int) []byte {
 	case 45:
 		return []byte{1, 1}
 	case 50:
-		return vec16(list16([]int{0x0403, 0x0804}))
+		return vec16(list16([]int{0x0503, 0x0806})) // signature_algorithms_cert: schemes that no signature_algorithms list of the models contains
 	case 51:
 		ks := append(u16(29), vec16(make([]byte, 32))...)
 		return vec16(ks)
